@@ -460,6 +460,10 @@ func (e *Engine) loopBackEdge(fr *frame, li *loopInfo, pred *ssa.BasicBlock, st 
 	if li.isRange {
 		return
 	}
+	if ls := e.loopSpec(fr, li); ls != nil && ls.AssumeTerm != "" {
+		e.noteAbstract(fmt.Sprintf("termination of loop %d ASSUMED: %s", li.ordinal, ls.AssumeTerm))
+		return
+	}
 	if cut.variant == nil {
 		e.obligeNoAssume(st, fr, "dec", fmt.Sprintf("loop%d:no-variant", li.ordinal), c.False())
 		return
@@ -847,4 +851,62 @@ func mentionsNewVar(t *Term, id int) bool {
 		}
 	})
 	return found
+}
+
+
+// localsAt: the source-level local variables visible at block b (DebugRefs in blocks that dominate b, and in b
+// itself), as loop clauses see them: address-taken non-struct locals denote their current contents.
+func (e *Engine) localsAt(fr *frame, b *ssa.BasicBlock, st *State) map[string]SVal {
+	names := map[string]SVal{}
+	addrOf := map[string]types.Object{}
+	for _, blk := range fr.fn.Blocks {
+		if blk != b && !blk.Dominates(b) {
+			continue
+		}
+		for _, in := range blk.Instrs {
+			if ph, isPhi := in.(*ssa.Phi); isPhi {
+				// a loop-carried variable: the phi is its current value from here on
+				if ph.Comment != "" {
+					if v, ok := fr.regs[ph]; ok {
+						names[ph.Comment] = SVal{V: v, T: ph.Type()}
+						delete(addrOf, ph.Comment)
+					}
+				}
+				continue
+			}
+			d, ok := in.(*ssa.DebugRef)
+			if !ok {
+				continue
+			}
+			id, ok := d.Expr.(*ast.Ident)
+			if !ok {
+				continue
+			}
+			if obj, bound := addrOf[id.Name]; bound && !d.IsAddr && obj == d.Object() {
+				continue
+			}
+			if d.IsAddr {
+				addrOf[id.Name] = d.Object()
+			} else {
+				delete(addrOf, id.Name)
+			}
+			if v, ok := fr.regs[d.X]; ok {
+				names[id.Name] = SVal{V: v, T: d.X.Type(), Addr: d.IsAddr}
+			}
+		}
+	}
+	for name, sv := range names {
+		if !sv.Addr {
+			continue
+		}
+		pt, ok := sv.T.Underlying().(*types.Pointer)
+		if !ok {
+			continue
+		}
+		if _, isStruct := pt.Elem().Underlying().(*types.Struct); isStruct {
+			continue
+		}
+		names[name] = SVal{V: e.C.Load(&st.heap, toPtr(sv.V), 0, pt.Elem()), T: pt.Elem()}
+	}
+	return names
 }
